@@ -176,6 +176,10 @@ func (opgPubKey *openpgpPubKey) ID() string {
 }
 
 func (opgPubKey *openpgpPubKey) verify(content []byte, sig *packet.Signature) error {
+	if !sig.Hash.Available() {
+		// New would panic
+		return fmt.Errorf("unsupported signature digest algorithm: %d", sig.Hash)
+	}
 	h := sig.Hash.New()
 	h.Write(content)
 	return opgPubKey.pubKey.VerifySignature(h, sig)
